@@ -391,8 +391,12 @@ theorem notifyUp_forwards (n : Nat) (w : World) (x : Nat) (h : forwardsUp w x = 
     · rw [if_pos h]
   case ginput => cases h
   all_goals first
-    | (rw [hup]; exact ⟨_, step_setWaiting w x true false, rfl⟩)
     | exact ⟨w, Step.refl w, rfl⟩
+    | (by_cases hfree : ((w.dev x).part.isNone && (w.dev x).output.isNone) = true
+       · simp only [hfree, if_true]
+         rw [hup]; exact ⟨_, step_setWaiting w x true false, rfl⟩
+       · simp only [hfree]
+         exact ⟨w, Step.refl w, rfl⟩)
 
 theorem notifyUp_ginput (n : Nat) (w : World) (x : Nat) (hk : (w.dev x).kind = .ginput) :
     notifyUp (n + 1) w x =
